@@ -367,10 +367,10 @@ def _validate_trace(run, spec, trace_path, kfs=None, label="", max_rejections=4)
 # harness
 
 
-def gen_cases(path, seed, n, hosts, family="mixed", depth=2, steps=14, budget=8, append=False, bad=0.0):
+def gen_cases(path, seed, n, hosts, family="mixed", depth=2, steps=14, budget=8, append=False, bad=0.0, env=None):
     rc, out = sh(["python3", os.path.join(ROOT, "gen", "gencases.py"), "--seed", str(seed), "--n", str(n),
                   "--host", hosts, "--family", family, "--depth", str(depth), "--steps", str(steps),
-                  "--budget", str(budget), "--bad", str(bad)], check=True)
+                  "--budget", str(budget), "--bad", str(bad)], check=True, env=env)
     with open(path, "a" if append else "w") as f:
         f.write(out)
 
@@ -653,6 +653,24 @@ def replay(path):
             return 1
         print("replay: the case now runs to its end")
         return 0
+    if rep.get("kind") == "det-trace":
+        # execute the history in two fresh processes and compare what they record
+        build_harness()
+        d = os.path.join(WORK, "replay")
+        cp = os.path.join(d, "det.cases")
+        c = rep["case"]
+        with open(cp, "w") as f:
+            f.write(json.dumps({"name": "replay", "host": c["host"], "progs": c["progs"], "follow": c.get("follow", {}),
+                                "legacy": c.get("legacy", False), "steps": rep.get("steps", [{"a": "run", "p": 0}]),
+                                "policy": rep.get("policy")}) + "\n")
+        outs = []
+        for k in range(4):
+            tp = os.path.join(d, f"det{k}.trace")
+            run_harness(cp, tp)
+            outs.append(open(tp).read())
+        same = all(o == outs[0] for o in outs)
+        print("replay: four processes", "AGREE" if same else "DIFFER")
+        return 0 if same else 1
     if rep.get("kind") == "timer-id-reuse":
         print(json.dumps(rep, indent=1))
         print("replay: ids are process-wide; run ./check C18 again to re-execute the whole timer trace")
